@@ -31,6 +31,12 @@ pub enum Step {
     SetRange { node: u8, sel: u8 },
     /// the next disk write of a first copy fetched through replication fails once at `node` (transient error)
     DiskErr { node: u8 },
+    /// clean stop and restart of `node` from its directory (only durable state survives: cache, fetcher state,
+    /// responsible range and routing table are rebuilt); messages addressed to it stay in transit
+    Restart { node: u8 },
+    /// every message between `a` and `b` is lost until `Heal` (or until the faults stop)
+    Partition { a: u8, b: u8 },
+    Heal,
 }
 
 #[derive(Serialize, Deserialize, Clone, Debug)]
@@ -60,7 +66,7 @@ impl Sim for ClusterSim {
             modes: vec!["nofault", "fault"],
             quick_runs: 3_000,
             thorough_runs: 12_000,
-            rule: "One run = 2..3 full real nodes in one process, each accepting seeded client uploads (all four kinds; divergent versions of the same mutable record at different nodes), then replication rounds (clock past the 30 s throttle, TriggerIntervalReplication, Replicate lists, GetReplicatedRecord fetches, store_replicated_in_record) over a simulated transport; mode fault delays, reorders, duplicates and loses messages, fails the first disk write of a replicated copy once, and injects advertisements from a peer that is not among the closest. After the faults stop, 6 clean rounds follow and all nodes must hold byte-identical immutable records and converged mutable records (merged register, union of transactions, highest scratchpad). Every Replicate list must equal the sender's held set. Non-trivial = >= 3 operations and (>= 1 fault or non-FIFO delivery).",
+            rule: "One run = 2..3 full real nodes in one process, each accepting seeded client uploads (all four kinds; divergent versions of the same mutable record at different nodes), then replication rounds (clock past the 30 s throttle, TriggerIntervalReplication, Replicate lists, GetReplicatedRecord fetches, store_replicated_in_record) over a simulated transport; mode fault delays, reorders, duplicates and loses messages, fails the first disk write of a replicated copy once, partitions pairs of nodes, restarts nodes from their directories, and injects advertisements from a peer that is not among the closest. After the faults stop, 6 clean rounds follow and all nodes must hold byte-identical immutable records and converged mutable records (merged register, union of transactions, highest scratchpad). Every Replicate list must equal the sender's held set. Non-trivial = >= 3 operations and (>= 1 fault or non-FIFO delivery).",
             assumptions: vec![
                 "libp2p transport / kad / request-response are stubs: the simulator carries the same Request/Response values between the real handlers of the nodes",
                 "the payment contract is the in-process ledger (all uploads in this sim carry valid payments)",
@@ -79,6 +85,8 @@ impl Sim for ClusterSim {
         };
         // swarm knob: in a third of the runs some nodes get a responsible range
         let with_ranges = rng.chance(1, 3);
+        let with_restarts = fault && rng.chance(1, 2);
+        let with_partitions = fault && rng.chance(1, 2);
         let mut steps = vec![];
         for _ in 0..n_uploads {
             let kind = rng.below(4) as u8;
@@ -98,6 +106,9 @@ impl Sim for ClusterSim {
                         2 => Step::Trigger { node: rng.below(n_nodes as u64) as u8 },
                         3 => Step::ForeignAdvert { node: rng.below(n_nodes as u64) as u8 },
                         4 if rng.chance(1, 2) => Step::DiskErr { node: rng.below(n_nodes as u64) as u8 },
+                        5 if with_restarts && rng.chance(1, 2) => Step::Restart { node: rng.below(n_nodes as u64) as u8 },
+                        6 if with_partitions && rng.chance(1, 2) => Step::Partition { a: rng.below(n_nodes as u64) as u8, b: rng.below(n_nodes as u64) as u8 },
+                        7 if with_partitions && rng.chance(1, 3) => Step::Heal,
                         _ => Step::Run { sel: rng.below(1 << 16) as u32 },
                     });
                 }
